@@ -268,7 +268,9 @@ func (p *Program) ExploreQueue(fn *ssa.Function, opt RunOptions, dir string, wor
 			continue
 		}
 		e.Initial = pre
+		p0 := e.Res.Paths
 		e.Explore(run)
+		debugf("worker %d: chunk of %d prefixes -> %d paths, %d prefixes left", worker, len(pre), e.Res.Paths-p0, len(e.Frontier))
 		if rest := e.Frontier; len(rest) > 0 {
 			// hand back in up to 6 chunks
 			k := 6
